@@ -78,38 +78,71 @@ def cell(f):
         return "x" if tok.startswith("err ") else "X!" + tok.split()[-1]
 
 
+KVEC_OPS = {"kc2t", "kt2c", "kc2d", "kd2c", "kd2t", "kt2d", "cr2t", "t2cr", "cr2d", "d2cr"}
+KLOC_OPS = {"kutr5", "kutr3", "kloc", "kcdsloc"}
+KIV_OPS = {"kci2t", "cri2t", "ti2cr", "cri2d", "di2cr"}
+CHUNK_OPS = KVEC_OPS | KLOC_OPS | KIV_OPS
+
+
 @functools.lru_cache(maxsize=8)
-def _chunk_twin_cached(key, which):
+def _build_chunk_cached(key, ws, we, wst_sym):
+    """the same transcript built on the sequence chunk [ws, we) (strand wst) of the chromosome of length <P>"""
     from inscripta.biocantor.io.parser import seq_chunk_to_parent
     tk = Toks(key.split())
     plen, st, exons, cds = parse_tx_tokens(tk)
-    if plen is None:
-        return None
-    blocks = cds if cds is not None else exons
-    lo = min(s for s, _ in blocks)
-    hi = max(e for _, e in blocks)
-    if hi - lo < 3:
-        return None
-    ws, we = [(lo + 1, hi), (lo, hi - 1), (lo + 1, hi - 1), (max(0, lo - 1), min(plen, hi + 1))][which]
-    if not any(max(s, ws) < min(e, we) for s, e in blocks):      # keep at least one CDS (or exon) base
-        return None
-    seq = ("ACGT" * (plen // 4 + 1))[:plen]
     try:
-        parent = seq_chunk_to_parent(seq[ws:we], "chr1", ws, we)
+        n = max(plen or 0, we)
+        seq = ("ACGT" * (n // 4 + 1))[:n]
+        parent = seq_chunk_to_parent(seq[ws:we], "chr1", ws, we, SYM[wst_sym])
         kw = {}
         if cds is not None:
             cs, ce = [s for s, _ in cds], [e for _, e in cds]
-            frames = CDSInterval.construct_frames_from_location(CompoundInterval(cs, ce, st), CDSFrame.ZERO)
+            try:
+                frames = CDSInterval.construct_frames_from_location(CompoundInterval(cs, ce, st), CDSFrame.ZERO)
+            except Exception:  # noqa
+                frames = [CDSFrame.ZERO] * len(cds)
             kw = dict(cds_starts=cs, cds_ends=ce, cds_frames=frames)
         return TranscriptInterval([s for s, _ in exons], [e for _, e in exons], st,
-                                  parent_or_seq_chunk_parent=parent, **kw)
-    except Exception:  # noqa: the chunk twin cannot be built for this layout (its own constructor's business)
-        return None
+                                  parent_or_seq_chunk_parent=parent, **kw), None
+    except RecursionError:
+        return None, "err! RecursionError"
+    except Exception as e:  # noqa
+        return None, exc_token(e)
 
 
-def _chunk_twin(key, line):
-    import zlib
-    return _chunk_twin_cached(key, zlib.crc32(line.encode()) % 4)
+def impl_chunk_op(op, key, tk):
+    ws, we, wst = tk.int(), tk.int(), tk.next()
+    tx, err = _build_chunk_cached(key, ws, we, wst)
+    if err is not None:
+        return err
+
+    def point(fn):
+        lo, hi = tk.int(), tk.int()
+        return "ok " + " ".join(cell(lambda p=p: fn(p)) for p in range(lo, hi + 1))
+
+    def go():
+        if op in KVEC_OPS:
+            fn = {"kc2t": tx.sequence_pos_to_transcript, "kt2c": tx.transcript_pos_to_sequence,
+                  "kc2d": tx.sequence_pos_to_cds, "kd2c": tx.cds_pos_to_sequence,
+                  "kd2t": tx.cds_pos_to_transcript, "kt2d": tx.transcript_pos_to_cds,
+                  "cr2t": tx.chunk_relative_pos_to_transcript, "t2cr": tx.transcript_pos_to_chunk_relative,
+                  "cr2d": tx.chunk_relative_pos_to_cds, "d2cr": tx.cds_pos_to_chunk_relative}[op]
+            return point(fn)
+        if op == "kutr5":
+            return "ok " + show_loc(tx.get_5p_interval())
+        if op == "kutr3":
+            return "ok " + show_loc(tx.get_3p_interval())
+        if op == "kloc":
+            return "ok " + show_loc(tx.chunk_relative_location)
+        if op == "kcdsloc":
+            return "ok " + show_loc(tx.cds_chunk_relative_location)
+        s, e, st = tk.int(), tk.int(), tk.strand()
+        fn = {"kci2t": tx.sequence_interval_to_transcript, "cri2t": tx.chunk_relative_interval_to_transcript,
+              "ti2cr": tx.transcript_interval_to_chunk_relative, "cri2d": tx.chunk_relative_interval_to_cds,
+              "di2cr": tx.cds_interval_to_chunk_relative}[op]
+        return "ok " + show_loc(fn(s, e, st))
+
+    return guarded(go)
 
 
 def impl_tx_op(line):
@@ -119,33 +152,17 @@ def impl_tx_op(line):
     start = tk.i
     parse_tx_tokens(tk)
     key = " ".join(toks[start:tk.i])
+    if op in CHUNK_OPS:
+        # the chunk-built twin is addressed by its own ops (kc2t … = the chromosome-level methods of the twin,
+        # whose required answers are those of the chromosome-built transcript: Props/C06.lean chunk_built_*)
+        return impl_chunk_op(op, key, tk)
     tx, err = _build_cached(key)
     if err is not None:
         return err
-    tx_box = [tx]
-
-    class _TxProxy:
-        def __getattr__(self, name):
-            return getattr(tx_box[0], name)
-
-    tx = _TxProxy()
 
     def point(fn):
         lo, hi = tk.int(), tk.int()
-        ans = "ok " + " ".join(cell(lambda p=p: fn(p)) for p in range(lo, hi + 1))
-        # chunk twin: the same transcript built on a sequence chunk that cuts it must give the SAME
-        # chromosome-level answers (these conversion methods are documented in chromosome coordinates)
-        twin = _chunk_twin(key, line)
-        if twin is not None:
-            saved = tx_box[0]
-            tx_box[0] = twin
-            try:
-                ans2 = "ok " + " ".join(cell(lambda p=p: fn(p)) for p in range(lo, hi + 1))
-            finally:
-                tx_box[0] = saved
-            if ans2 != ans:
-                return "err! ChunkTwinMismatch"
-        return ans
+        return "ok " + " ".join(cell(lambda p=p: fn(p)) for p in range(lo, hi + 1))
 
     def go():
         if op in VEC_OPS:
